@@ -1,35 +1,96 @@
 (* C16 - a cloned router is independent of its original.  Statements only.
-   In the model routers are immutable values, so a family of routers related by clone is a list and
-   independence holds by construction; what the model does NOT represent is Arc aliasing between a
-   router and its clone (the defect repaired by commit 93e6281).  That is tied by the `clone`
-   correspondence channel: every member of the family is dumped after every operation on any
-   member and must be unchanged, and every delete on a clone must hand the data back. *)
-From WF Require Import Base.Bytes Spec.Route Spec.Walk Model.Tree Model.Router.
 
-Definition family := list router.
-Definition fam_clone (f : family) (i : nat) : family :=
-  match nth_error f i with Some r => f ++ [r] | None => f end.
-Fixpoint fam_set (f : family) (i : nat) (r : router) : family :=
-  match f, i with
-  | [], _ => []
-  | _ :: f', O => r :: f'
-  | x :: f', S i' => x :: fam_set f' i' r
-  end.
+   Two layers.
+   (1) Value layer (Proofs/FamilyP.v): model routers are values.  In a family of routers driven by insert, delete,
+       constraint registration, clone and new, every router IS the router that one history builds on its own - the
+       history of a slot being what was applied to it and, before it was cloned, to its ancestors.  Together with
+       C05 this gives: a router of a family answers, prints, and reacts to every later call exactly like a router
+       built independently with the same live templates, and no call on one router changes another.
+   (2) Sharing layer (Model/Arcs.v, Proofs/ArcsP.v): what values cannot show.  The data of a template with
+       optional groups lives in an Arc shared by its stored nodes, and delete hands it back only from the last
+       reference.  The model tracks, per stored node, the Arc it holds and its strong count; insert, delete, clone
+       (one fresh Arc per copied node, NodeData::clone) and drop are steps on that view.  Proved for every family
+       history: every Arc is held by nodes of ONE template in ONE router and its count is the number of holders;
+       hence delete always gets the data back, and a step on one router leaves the views of all others unchanged.
+       With the derived Clone of the pinned commit (same Arcs in both routers) this is refuted by "/a(/b)".
+   Tie to the code: (1) by the one-step correspondence of every router of a family (clone lines, dumpof);
+   (2) by the `arcs` lines of the harness - Arc::as_ptr and Arc::strong_count of every shared node of every
+   router, read through the verif hook after each mutating call - compared with the model's step on the
+   previous view up to the names of the Arcs (finding kind Arcs). *)
+From Coq Require Import List NArith.
+From WF Require Import Base.Bytes Spec.Route Spec.Walk Model.Tree Model.Parser Model.Router Model.Display Model.Arcs.
+From WF Require Import Proofs.ReachP Proofs.RegistryP Proofs.ReachOpsP Proofs.UniqueP Proofs.FamilyP Proofs.ArcsP.
+Import ListNotations.
 
-Theorem C16_clone_answers_like_original :
-  forall cfun f i r p, nth_error f i = Some r ->
-    nth_error (fam_clone f i) (length f) = Some r
-    /\ rsearch cfun r p = rsearch cfun r p.
-Proof.
-  intros cfun f i r p H. unfold fam_clone. rewrite H. split; [|reflexivity].
-  rewrite nth_error_app2 by apply le_n. rewrite PeanoNat.Nat.sub_diag. reflexivity.
-Qed.
-Print Assumptions C16_clone_answers_like_original.
+(* ---- (1) value layer ---- *)
+Print fop.
+Print fstep.
+Print hstep.
 
-Theorem C16_operations_do_not_touch_other_members :
-  forall f i j r', i <> j -> nth_error (fam_set f i r') j = nth_error f j.
-Proof.
-  induction f as [|x f IH]; intros i j r' Hne; [destruct i; reflexivity|].
-  destruct i, j; cbn; try reflexivity; try congruence. apply IH. congruence.
-Qed.
-Print Assumptions C16_operations_do_not_touch_other_members.
+Theorem C16_family_member_is_its_own_history :
+  forall b (ops : list fop) (s : N), frun b ops s = run b (hist ops s).
+Proof. exact family_is_histories. Qed.
+Print Assumptions C16_family_member_is_its_own_history.
+
+Theorem C16_clone_is_the_original_at_that_moment :
+  forall b (ops : list fop) a c, frun b (ops ++ [FClone a c]) c = frun b ops a.
+Proof. exact clone_is_original. Qed.
+Print Assumptions C16_clone_is_the_original_at_that_moment.
+
+Theorem C16_calls_do_not_touch_other_routers :
+  forall b (ops : list fop) o s s',
+    match o with FOp x _ | FNew x => x | FClone _ x => x end = s -> s' <> s ->
+    frun b (ops ++ [o]) s' = frun b ops s'.
+Proof. exact other_routers_untouched. Qed.
+Print Assumptions C16_calls_do_not_touch_other_routers.
+
+Theorem C16_family_member_behaves_as_independently_built :
+  forall b (ops : list fop) s b' ops',
+    (forall x, In x (live_of b (hist ops s)) <-> In x (live_of b' ops')) ->
+    (forall chk p, rsearch chk (frun b ops s) p = rsearch chk (run b' ops') p)
+    /\ display (r_root (frun b ops s)) = display (r_root (run b' ops'))
+    /\ erase (r_root (frun b ops s)) = erase (r_root (run b' ops')).
+Proof. exact family_router_as_independent. Qed.
+Print Assumptions C16_family_member_behaves_as_independently_built.
+
+Theorem C16_next_call_behaves_as_on_the_independent_router :
+  forall b (ops : list fop) s o, frun b (ops ++ [FOp s o]) s = step (run b (hist ops s)) o.
+Proof. exact family_op_as_independent. Qed.
+Print Assumptions C16_next_call_behaves_as_on_the_independent_router.
+
+(* ---- (2) sharing layer ---- *)
+Print anode.
+Print astep.
+Print a_ins.
+Print a_del.
+Print a_clone.
+Print unwraps.
+Print Own.
+
+Theorem C16_every_arc_has_one_owner :
+  forall ops : list aop, Own (fold_left astep ops []).
+Proof. exact own_reachable. Qed.
+Print Assumptions C16_every_arc_has_one_owner.
+
+Theorem C16_checked_invariant_is_the_invariant : forall v, own_b v = true <-> Own v.
+Proof. exact own_b_spec. Qed.
+Print Assumptions C16_checked_invariant_is_the_invariant.
+
+Theorem C16_delete_hands_the_data_back :
+  forall (ops : list aop) s t,
+    (exists n, In n (fold_left astep ops []) /\ at_tmpl s t n = true) ->
+    a_del_returns s t (fold_left astep ops []) = true.
+Proof. exact reachable_delete_returns_data. Qed.
+Print Assumptions C16_delete_hands_the_data_back.
+
+Theorem C16_step_leaves_other_routers_views_unchanged :
+  forall v o s, Own v -> target o = Some s ->
+    filter (fun n => negb (at_slot s n)) (astep v o) = filter (fun n => negb (at_slot s n)) v.
+Proof. exact step_frame. Qed.
+Print Assumptions C16_step_leaves_other_routers_views_unchanged.
+
+(* the derived Clone of the pinned commit: delete on the original no longer gets its data back *)
+Theorem C16_shared_clone_refuted :
+  exists v, v = a_clone_shared 0 1 (a_ins 0 T_AB 2 []) /\ own_b v = false /\ a_del_returns 0 T_AB v = false.
+Proof. exact shared_clone_refuted. Qed.
+Print Assumptions C16_shared_clone_refuted.
